@@ -162,6 +162,8 @@ def walk_no_nested(fn):
     while stack:
         n = stack.pop()
         yield n
+        if isinstance(n, (ast.FunctionDef, ast.AsyncFunctionDef, ast.ClassDef, ast.Lambda)):
+            continue
         for c in ast.iter_child_nodes(n):
             if isinstance(c, (ast.FunctionDef, ast.AsyncFunctionDef, ast.ClassDef, ast.Lambda)):
                 continue
